@@ -362,18 +362,58 @@ def argmin(a, axis=None, **kw):
     return _np.argmin(a, axis=axis, **kw) if r is None else r
 
 
+def _reduce_axis(a, pick_gt, axis):
+    """(C18) max/min of a symbolic array along one integer axis: one comparison chain per output element
+    (each comparison forks the explorer), e.g. np.r_[[u], [v]].min(axis=0)"""
+    a = _np.asarray(a)
+    if not isinstance(axis, (int, _np.integer)) or isinstance(axis, bool):
+        raise Unsupported("axis reduction with comparison on symbolic array over several axes")
+    moved = _np.moveaxis(a, int(axis), 0)
+    out = _np.empty(moved.shape[1:], dtype=object)
+    for idx in _np.ndindex(out.shape):
+        col = moved[(slice(None),) + idx]
+        best = col[0]
+        for i in range(1, col.shape[0]):
+            c = (col[i] > best) if pick_gt else (col[i] < best)
+            if c:                  # forks the explorer
+                best = col[i]
+        out[idx] = best
+    return _wrap(out) if out.ndim else out[()]
+
+
+def _sym_axis(a, axis, kw):
+    return (axis is not None and not kw and isinstance(a, _np.ndarray) and _np.ndarray.dtype.__get__(a) == object)
+
+
 def amax(a, axis=None, **kw):
+    if _sym_axis(a, axis, kw):
+        return _reduce_axis(a, True, axis)
     r = _reduce_cmp(a, True, axis)
     return _np.max(a, axis=axis, **kw) if r is None else _np.asarray(a).reshape(-1)[r]
 
 
 def amin(a, axis=None, **kw):
+    if _sym_axis(a, axis, kw):
+        return _reduce_axis(a, False, axis)
     r = _reduce_cmp(a, False, axis)
     return _np.min(a, axis=axis, **kw) if r is None else _np.asarray(a).reshape(-1)[r]
 
 
 max = amax
 min = amin
+
+
+def ptp(a, axis=None, **kw):
+    """(C20) peak-to-peak of a symbolic array as a left fold of max/min nodes (Rmax/Rmin, fmax/fmin): no path
+    forking, same reduction order as numpy's maximum.reduce - minimum.reduce"""
+    if _is_sym(a) and axis is None and not kw:
+        flat = _np.asarray(array(a), dtype=object).reshape(-1)
+        hi = lo = _s.lift(flat[0])
+        for v in flat[1:]:
+            hi = _s.fn('max', hi, v)
+            lo = _s.fn('min', lo, v)
+        return hi - lo
+    return _np.ptp(a, axis=axis, **kw)
 
 
 def where(c, *args):
@@ -476,7 +516,14 @@ class _CClass:
         if not isinstance(key, tuple):
             key = (key,)
         key = tuple(array(k) if (_is_sym(k) and not isinstance(k, _np.ndarray)) else k for k in key)
-        return _finish(self.real[key])
+        try:
+            return _finish(self.real[key])
+        except Unsupported:
+            # (C08) numpy's c_/r_ trust the reported float dtype of the proxy arrays and try float(); redo the
+            # concatenation on plain object views so the symbolic entries are kept
+            key = tuple(k.view(_np.ndarray) if isinstance(k, _np.ndarray) and _np.ndarray.dtype.__get__(k) == object else k
+                        for k in key)
+            return _finish(self.real[key])
 
 
 c_ = _CClass(_np.c_)
@@ -546,6 +593,35 @@ class _Linalg(types.ModuleType):
             t = a[0, j] * _Linalg._det2(minor)
             tot = tot + t if j % 2 == 0 else tot - t
         return tot
+
+    @staticmethod
+    def matrix_power(a, n):
+        """(C08) true matrix power by repeated `@`, in the multiplication order of numpy.linalg.matrix_power"""
+        if not _is_sym(a):
+            return _np.linalg.matrix_power(a, n)
+        a = _np.asarray(array(a), dtype=object)
+        if a.ndim != 2 or a.shape[0] != a.shape[1]:
+            raise _np.linalg.LinAlgError("Last 2 dimensions of the array must be square")
+        if isinstance(n, (S, B)) or int(n) != n:
+            raise TypeError("exponent must be an integer")
+        n = int(n)
+        if n < 0:
+            raise Unsupported("symbolic matrix_power with a negative exponent")
+        if n == 0:
+            return identity(a.shape[0])
+        if n == 1:
+            return _wrap(a.copy())
+        if n == 2:
+            return _wrap(a @ a)
+        if n == 3:
+            return _wrap((a @ a) @ a)
+        z = result = None
+        while n > 0:
+            z = a if z is None else z @ z
+            n, bit = divmod(n, 2)
+            if bit:
+                result = z if result is None else result @ z
+        return _wrap(result)
 
     @staticmethod
     def inv(a):
